@@ -321,9 +321,38 @@ def run_seedind(spec, acc):
     import copy
     for i in iter_cases(spec):
         rng = case_rng(spec['seed'], 'C10', 'seedind', i)
-        g = Gen(rng, rt_safe=False, nrt_only=True, features=('rand', 'call'))
-        g.all_seeded = True
+        # variant A: every routine has its own seed; variant B: only some do -
+        # a routine without a seed shares the generator of the routine it was
+        # created in (its family), and ended routines are reset and played
+        # again by routines of other families
+        family_variant = i % 2 == 1
+        g = Gen(rng, rt_safe=False, nrt_only=True,
+                features=('rand', 'call', 'replay') if family_variant else ('rand', 'call'))
+        g.all_seeded = not family_variant
         prog = g.program()
+        forced = None
+        if family_variant and rng.random() < 0.6:
+            # a seeded routine P creates an unseeded child C (C draws from P's
+            # generator); C ends; a routine X of another family draws, then
+            # resets and plays C again: C still draws from its own family
+            nid = g.next_id
+            C = {'id': nid + 1, 'clock': -1, 'free': True, 'seed': None,
+                 'body': [['rand', 'rand', 100, None], ['y', 0.25],
+                          ['rand', 'linrand', 100, None]]}
+            P = {'id': nid, 'clock': -1, 'free': True, 'seed': rng.randrange(1 << 30),
+                 'body': [['rand', 'rand', 100, None], ['play', C], ['y', 0.1],
+                          ['rand', 'rand2', 100, None]]}
+            X = {'id': nid + 2, 'clock': rng.choice([-1, -2]), 'free': True,
+                 'seed': rng.choice([None, rng.randrange(1 << 30)]),
+                 'body': [['rand', 'rand', 100, None], ['y', 1.0],
+                          ['rand', 'rand', 100, None], ['replay', nid + 1],
+                          ['rand', 'rand', 100, None]]}
+            if X['seed'] is None:       # top level routines are seeded: wrap
+                X = {'id': nid + 3, 'clock': -1, 'free': True,
+                     'seed': rng.randrange(1 << 30),
+                     'body': [['rand', 'rand', 100, None], ['play', X]]}
+            prog['routines'] += [P, X]
+            forced = nid + 1
         # collect routines with draws
         allr = []
 
@@ -334,10 +363,22 @@ def run_seedind(spec, acc):
                     walk(s[1])
         for R in prog['routines']:
             walk(R)
-        withrand = [R for R in allr if any(s[0] == 'rand' for s in R['body'])]
+        # family = nearest ancestor-or-self with a seed of its own
+        fam = {}
+
+        def walkf(R, f):
+            f = R['id'] if R.get('seed') is not None else f
+            fam[R['id']] = f
+            for s in R['body']:
+                if s[0] == 'play':
+                    walkf(s[1], f)
+        for R in prog['routines']:
+            walkf(R, None)
+        withrand = [R for R in allr if any(s[0] == 'rand' for s in R['body'])
+                    and fam[R['id']] is not None]
         if not withrand or len(allr) < 2:
             continue
-        target = rng.choice(withrand)['id']
+        target = rng.choice(withrand)['id'] if forced is None else forced
         prog2 = copy.deepcopy(prog)
         allr2 = []
 
@@ -350,8 +391,8 @@ def run_seedind(spec, acc):
             walk2(R)
         changed = 0
         for R in allr2:
-            if R['id'] == target:
-                continue
+            if R['id'] == target or fam[R['id']] == fam[target]:
+                continue        # draws of the target's own family are part of its stream
             # add and remove draws in the other routines
             nb = []
             for s in R['body']:
@@ -381,6 +422,9 @@ def run_seedind(spec, acc):
         if draws is None:
             continue
         acc.count('seed_independence_pairs')
+        acc.count('seed_independence_pairs_family_variant', int(family_variant))
+        acc.count('seed_independence_replays', sum(
+            1 for e in r.log if e[0] == 'replay' and e[3] == 'replayed'))
         acc.case(h64(json.dumps([prog, prog2], sort_keys=True)), nontrivial=bool(draws[0]))
         if draws[0] != draws[1]:
             acc.violation('C10/seeded-routine-draws-depend-on-other-routines',
